@@ -123,6 +123,22 @@ def check(model, tier):
                     details=describe(p),
                 )
                 continue
+            # the name handed back must be the value this call built, not something read back from engine state that
+            # another request may have written in between
+            root = v
+            while isinstance(root, (ast.Subscript, ast.Attribute)):
+                root = root.value
+            if isinstance(v, (ast.Subscript, ast.Attribute)) and isinstance(root, ast.Name) and root.id == "self":
+                run.fail(
+                    "R19.1",
+                    inst,
+                    f"the name is read back from shared engine state (`{src(v)[:60]}`) instead of being the value this call built: a request served by another "
+                    "thread between the write and the read makes both calls return the same string",
+                    fi=f,
+                    node=p.node,
+                    details=describe(p),
+                )
+                continue
             pieces = _pieces(v)
             if pieces is None:
                 raise AnalysisError(f"{f.key}: returned name {src(p.value)} is built in a way the rule does not recognise")
@@ -254,6 +270,26 @@ def check(model, tier):
                     run.ok("R19.2", inst)
                 else:
                     run.fail("R19.2", inst, "make_leaf does not forward name= / name_prefix= to LeafRelation", fi=f, node=call)
+    # (f) a missing name is filled in only by the generator: no function assigns its `name` parameter anything else
+    for f in m.all_functions():
+        if "name" not in f.params or f.module.rel.startswith("tests"):
+            continue
+        if not any(q in f.params for q in ("name_prefix", "prefix")):
+            continue
+        for n in ast.walk(f.node):
+            tgt = None
+            if isinstance(n, ast.Assign) and any(isinstance(t, ast.Name) and t.id == "name" for t in n.targets):
+                tgt = n.value
+            elif isinstance(n, ast.NamedExpr) and isinstance(n.target, ast.Name) and n.target.id == "name":
+                tgt = n.value
+            if tgt is None:
+                continue
+            inst = f"{f.module.rel}:{f.qualname}:name-default"
+            ok = any(isinstance(c, ast.Call) and call_attr(c) == "get_relation_name" for c in ast.walk(tgt))
+            if ok:
+                run.ok("R19.2", inst)
+            else:
+                run.fail("R19.2", inst, f"{f.qualname} fills in a missing name with `{src(tgt)[:60]}`, not with get_relation_name(<prefix>): two relations can get the same name, and it ignores the requested prefix", fi=f, node=n)
     # (e) the requested prefix travels unchanged: no function re-binds its prefix parameter
     for f in m.all_functions():
         for pname in ("name_prefix", "prefix"):
